@@ -53,7 +53,19 @@ theorem approximationSteepenedSigmoid_eq :
     ActR.approximationSteepenedSigmoid = (approximationSteepenedSigmoid : ℝ → ℝ) := by
   funext x; simp only [ActR.approximationSteepenedSigmoid, approximationSteepenedSigmoid_real]; act_eq
 theorem inverseAbsoluteSigmoid_eq : ActR.inverseAbsoluteSigmoid = (inverseAbsoluteSigmoid : ℝ → ℝ) := by
-  funext x; simp only [ActR.inverseAbsoluteSigmoid, inverseAbsoluteSigmoid_real]; act_eq
+  funext x; simp only [ActR.inverseAbsoluteSigmoid, inverseAbsoluteSigmoid_real]
+  first
+  | act_eq
+  | -- the monotone reformulation of notes/proposed_fix_C18.patch: x < 0 ? 0.5/(1-x) : 1 - 0.5/(1+x)
+    (norm_num
+     split_ifs with h
+     · rw [abs_of_neg h]
+       have h1 : 1 - x ≠ 0 := by linarith
+       have h2 : 1 + -x ≠ 0 := by linarith
+       field_simp; ring
+     · rw [abs_of_nonneg (not_lt.mp h)]
+       have : 1 + x ≠ 0 := by linarith [not_lt.mp h]
+       field_simp; ring)
 theorem leftShiftedSigmoid_eq : ActR.leftShiftedSigmoid = (leftShiftedSigmoid : ℝ → ℝ) := by
   funext x; simp only [ActR.leftShiftedSigmoid, leftShiftedSigmoid, logistic_real]; act_eq
 theorem leftShiftedSteepenedSigmoid_eq :
